@@ -126,6 +126,8 @@ def items(tier, seed):
         for lo in range(0, len(rows), per):
             out.append({"pool": name, "lo": lo, "hi": min(len(rows), lo + per), "tier": tier})
     out.append({"cross": True, "tier": tier})
+    for k in range(8):
+        out.append({"derived": True, "k": k, "tier": tier})
     return out
 
 
@@ -145,6 +147,8 @@ def run_item(item):
     oc = out["outcomes"]
     if item.get("cross"):
         return _cross(item, out)
+    if item.get("derived"):
+        return _derived(item, out)
     rows, cols = pools(tier)[item["pool"]]
     rc = _real(tier, item["pool"], 1)
     for i in range(item["lo"], item["hi"]):
@@ -210,4 +214,70 @@ def _cross(item, out):
                                     "input": U.key(m),
                                     "what": f"{k1} == {k2} built from the same content {U.describe(m)} is True",
                                     "item": item, "detail": None})
+    return out
+
+
+def _derived(item, out):
+    """graphs that the library derived itself (composition of overlapping pieces in both orders, subgraphs, reactant / product
+    of reaction graphs, copy-constructed and edited copies) compared with every universe graph of the same size: whenever ==
+    says True, the PUBLIC content of the derived object (atoms, bonds, roles, descriptors) must be isomorphic to the other graph"""
+    oc = out["outcomes"]
+    reps = [g for g in U.MG_reps(4, ("C", "H", "O")) if 2 <= len(g.atoms) <= 4]
+    crg = [g for g in U.CRG_reps(3) if len(g.atoms) == 3]
+    base = (reps + crg)[item["k"]:: 8]
+    for m in base:
+        ids = list(m.atoms)
+        n = len(ids)
+        cols = [g for g in (reps if m.kind == MG else crg) if len(g.atoms) == n]
+        rcols = [U.build(g) for g in cols]
+        g = U.build(m)
+        derived = []
+        for S1, S2 in ((ids[:-1], ids[1:]), (ids[1:], ids[:-1]), (ids, ids[:1]), (ids[:1], ids), (ids[: n // 2 + 1], ids[n // 2:])):
+            for a, b in ((S1, S2), (S2, S1)):
+                derived.append((f"compose({a},{b})", lambda a=a, b=b: type(g).compose([g.subgraph(a), g.subgraph(b)])))
+        if m.kind == CRG:
+            derived.append(("compose(reactant,product)", lambda: U.real_cls(MG).compose([g.reactant(), g.product()])))
+            derived.append(("compose(product,reactant)", lambda: U.real_cls(MG).compose([g.product(), g.reactant()])))
+
+        def edited():
+            h = type(g)(g)
+            if m.bonds:
+                h.remove_bond(*next(iter(m.bonds)))
+            return h
+
+        derived.append(("construct+remove_bond", edited))
+        for name, fn in derived:
+            try:
+                h = fn()
+            except Exception:
+                oc["derivation-raised"] = oc.get("derivation-raised", 0) + 1
+                continue
+            mh = U.from_real(h)
+            pool = cols if mh.kind == m.kind else [x for x in reps if len(x.atoms) == len(mh.atoms)]
+            rpool = rcols if mh.kind == m.kind else [U.build(x) for x in pool]
+            elh = sorted(d["atom_type"] for d in mh.atoms.values())
+            for x, rx in zip(pool, rpool):
+                # candidates that differ from the derived graph in at most one bond and have the same elements (everything
+                # else is covered by the all-pairs pools above)
+                if abs(len(x.bonds) - len(mh.bonds)) > 1 or sorted(d["atom_type"] for d in x.atoms.values()) != elh:
+                    continue
+                try:
+                    r1, r2 = (h == rx), (rx == h)
+                except Exception:
+                    oc["raised"] = oc.get("raised", 0) + 1
+                    continue
+                out["evals"] += 2
+                out["distinct"] += 1
+                for r in (r1, r2):
+                    if r is True:
+                        ok = RI.isomorphic(mh, x, roles=True, stereo=True, changes=True)
+                        oc["derived-equal-" + ("confirmed" if ok else "refuted")] = oc.get("derived-equal-" + ("confirmed" if ok else "refuted"), 0) + 1
+                        if not ok:
+                            out["viol"].append({"sig": f"C02/{E.SHORT[mh.kind]}/derived/{name.split('(')[0]}/false-equal",
+                                                "input": f"{U.key(m)}|{name}|{U.key(x)}",
+                                                "what": f"{name} of {U.describe(m)} has public content {U.describe(mh)} but compares equal to "
+                                                        f"{U.describe(x)}", "item": item, "detail": None})
+                            break
+                    else:
+                        oc["derived-unequal"] = oc.get("derived-unequal", 0) + 1
     return out
